@@ -160,10 +160,9 @@ func (a *Action) Exec(bs map[string]interface{}) ExecResult {
 				w[op.K] = CopyVal(v)
 			}
 		case "nest":
-			// mutate a nested value in place if it is an object
-			if m, ok := w[op.K].(map[string]interface{}); ok {
-				m[op.K2] = CopyVal(op.V)
-			}
+			// mutate a nested value in place: an object, or the objects inside an
+			// array (one level of arrays of arrays included)
+			NestInto(w[op.K], op.K2, op.V)
 		case "del":
 			delete(w, op.K)
 		case "clear":
@@ -478,4 +477,20 @@ func HasKeys(bs map[string]interface{}, keys ...string) bool {
 		}
 	}
 	return true
+}
+
+// NestInto sets key k2 in x if x is an object, or in every object found inside
+// x if x is an array (descending through nested arrays).
+func NestInto(x interface{}, k2 string, v interface{}) {
+	switch t := x.(type) {
+	case map[string]interface{}:
+		t[k2] = CopyVal(v)
+	case []interface{}:
+		for _, e := range t {
+			switch e.(type) {
+			case map[string]interface{}, []interface{}:
+				NestInto(e, k2, v)
+			}
+		}
+	}
 }
